@@ -61,11 +61,18 @@ def gen(rng, tier, index):
         cls = rng.choice(CLASSES) if rng.random() < 0.6 else 'uniform'
         spec.append({'class': cls, 'k': rng.randrange(1 << 20), 'fmt': rng.choice(('szx', 'z80'))})
     start_fmt = rng.choice(('szx', 'z80', 'szx', 'z80', 'bin', 'sna')) if machine == '48K' else rng.choice(('szx', 'z80'))
-    return {
+    scn = {
         'kind': 'crash-resume', 'machine': machine, 'prog': prog, 'start_fmt': start_fmt,
         'python': rng.random() < 0.4, 'cmio': rng.random() < 0.4, 'interrupts': interrupts,
         'N': n, 'crash_spec': spec, 'mode': 'stop' if rng.random() < 0.2 else 'ops',
     }
+    if index % 16 == 7:
+        # "for every split point": one short run, resumed from a snapshot taken after each of its instructions in turn
+        scn['N'] = rng.randrange(3, 36 if tier == 'quick' else 120)
+        scn['mode'] = 'ops'
+        scn['all_splits'] = rng.choice(('szx', 'z80', 'alt'))
+        del scn['crash_spec']
+    return scn
 
 # ---------------------------------------------------------------------------
 
@@ -286,11 +293,45 @@ def resolve_crashes(scn, lines, frame, int_active):
 
 def run(scn):
     res = new_result()
+    if scn.get('all_splits'):
+        return _run_all_splits(scn, res)
     wd = build.workdir()
     try:
         return _run(scn, res, wd)
     finally:
         shutil.rmtree(wd, ignore_errors=True)
+
+def _run_all_splits(scn, res):
+    n = scn['N']
+    h = hashlib.sha256()
+    k = 1
+    while k < n:
+        fmt = scn['all_splits'] if scn['all_splits'] != 'alt' else ('szx', 'z80')[k % 2]
+        sub = json.loads(json.dumps(scn))
+        del sub['all_splits']
+        sub['N'] = n
+        sub['crashes'] = [{'at': k, 'class': 'uniform', 'fmt': fmt}]
+        wd = build.workdir()
+        try:
+            r = _run(sub, res, wd)
+        finally:
+            shutil.rmtree(wd, ignore_errors=True)
+        n = min(n, sub['N'])
+        if not r.get('ok', True):
+            # the failing split is a scenario of its own: that is what gets shrunk and replayed
+            scn.clear()
+            scn.update(sub)
+            return r
+        if r.get('discard'):
+            if k == 1:
+                return r
+            r.pop('discard')
+            break
+        h.update((r.get('digest') or '').encode())
+        bump(res, 'split_points_swept')
+        k += 1
+    res['digest'] = h.hexdigest()
+    return res
 
 def _first_visit(lines, idx):
     """True if the PC reached after operation idx (= lines[idx].pc) was not a PC after any earlier op."""
